@@ -55,6 +55,48 @@ extern void hb_shape(hb_font_t *font, hb_buffer_t *buffer, const hb_feature_t *f
 extern unsigned int hb_buffer_get_length(hb_buffer_t *buffer);
 extern hb_glyph_info_t *hb_buffer_get_glyph_infos(hb_buffer_t *buffer, unsigned int *length);
 extern hb_glyph_position_t *hb_buffer_get_glyph_positions(hb_buffer_t *buffer, unsigned int *length);
+
+typedef struct hb_draw_funcs_t hb_draw_funcs_t;
+typedef struct hb_draw_state_t hb_draw_state_t;
+extern hb_draw_funcs_t *hb_draw_funcs_create(void);
+extern void hb_draw_funcs_set_move_to_func(hb_draw_funcs_t *d, void *func, void *user_data, void *destroy);
+extern void hb_draw_funcs_set_line_to_func(hb_draw_funcs_t *d, void *func, void *user_data, void *destroy);
+extern void hb_draw_funcs_set_quadratic_to_func(hb_draw_funcs_t *d, void *func, void *user_data, void *destroy);
+extern void hb_draw_funcs_set_cubic_to_func(hb_draw_funcs_t *d, void *func, void *user_data, void *destroy);
+extern void hb_draw_funcs_set_close_path_func(hb_draw_funcs_t *d, void *func, void *user_data, void *destroy);
+extern void hb_font_get_glyph_shape(hb_font_t *font, hb_codepoint_t glyph, hb_draw_funcs_t *dfuncs, void *draw_data);
+
+// recorder for the draw callbacks: op codes 0 move, 1 line, 2 quad, 3 cubic, 4 close; six floats per op
+typedef struct { int n, cap; int *ops; float *args; } vf_path_t;
+static void vf_push(vf_path_t *p, int op, float a, float b, float c, float d, float e, float f) {
+	if (p->n == p->cap) {
+		p->cap = p->cap ? p->cap * 2 : 64;
+		p->ops = realloc(p->ops, sizeof(int) * p->cap);
+		p->args = realloc(p->args, sizeof(float) * 6 * p->cap);
+	}
+	p->ops[p->n] = op;
+	float *q = p->args + 6 * p->n;
+	q[0] = a; q[1] = b; q[2] = c; q[3] = d; q[4] = e; q[5] = f;
+	p->n++;
+}
+static void vf_move(hb_draw_funcs_t *d, void *data, hb_draw_state_t *st, float x, float y, void *u) { vf_push(data, 0, x, y, 0, 0, 0, 0); }
+static void vf_line(hb_draw_funcs_t *d, void *data, hb_draw_state_t *st, float x, float y, void *u) { vf_push(data, 1, x, y, 0, 0, 0, 0); }
+static void vf_quad(hb_draw_funcs_t *d, void *data, hb_draw_state_t *st, float cx, float cy, float x, float y, void *u) { vf_push(data, 2, cx, cy, x, y, 0, 0); }
+static void vf_cubic(hb_draw_funcs_t *d, void *data, hb_draw_state_t *st, float c1x, float c1y, float c2x, float c2y, float x, float y, void *u) { vf_push(data, 3, c1x, c1y, c2x, c2y, x, y); }
+static void vf_close(hb_draw_funcs_t *d, void *data, hb_draw_state_t *st, void *u) { vf_push(data, 4, 0, 0, 0, 0, 0, 0); }
+static hb_draw_funcs_t *vf_funcs(void) {
+	static hb_draw_funcs_t *d;
+	if (!d) {
+		d = hb_draw_funcs_create();
+		hb_draw_funcs_set_move_to_func(d, vf_move, 0, 0);
+		hb_draw_funcs_set_line_to_func(d, vf_line, 0, 0);
+		hb_draw_funcs_set_quadratic_to_func(d, vf_quad, 0, 0);
+		hb_draw_funcs_set_cubic_to_func(d, vf_cubic, 0, 0);
+		hb_draw_funcs_set_close_path_func(d, vf_close, 0, 0);
+	}
+	return d;
+}
+static void vf_draw(hb_font_t *font, hb_codepoint_t g, vf_path_t *p) { p->n = 0; hb_font_get_glyph_shape(font, g, vf_funcs(), p); }
 */
 import "C"
 
@@ -72,6 +114,7 @@ type Font struct {
 	face      *C.hb_face_t
 	font      *C.hb_font_t
 	buf       *C.hb_buffer_t
+	path      C.vf_path_t
 	Upem      int
 	NumGlyphs int
 }
@@ -97,6 +140,8 @@ func (f *Font) Close() {
 	C.hb_font_destroy(f.font)
 	C.hb_face_destroy(f.face)
 	C.hb_blob_destroy(f.blob)
+	C.free(unsafe.Pointer(f.path.ops))
+	C.free(unsafe.Pointer(f.path.args))
 	C.free(f.data)
 	f.data = nil
 }
@@ -216,6 +261,32 @@ func (f *Font) Shape(text []rune, start, n int, direction int, script uint32, la
 	for i := range out {
 		out[i] = Glyph{uint32(is[i].codepoint), uint32(is[i].cluster), uint32(is[i].mask),
 			int(ps[i].x_advance), int(ps[i].y_advance), int(ps[i].x_offset), int(ps[i].y_offset)}
+	}
+	return out
+}
+
+// PathOp is one draw callback of hb_font_get_glyph_shape: Op 0 move, 1 line, 2 quadratic, 3 cubic, 4 close.
+type PathOp struct {
+	Op   int
+	Args [6]float32
+}
+
+// Draw records the draw callbacks for a glyph at the current scale and variation settings.
+// Must not be called concurrently (shared recorder per Font).
+func (f *Font) Draw(g uint32) []PathOp {
+	C.vf_draw(f.font, C.hb_codepoint_t(g), &f.path)
+	n := int(f.path.n)
+	if n == 0 {
+		return nil
+	}
+	ops := unsafe.Slice(f.path.ops, n)
+	args := unsafe.Slice(f.path.args, 6*n)
+	out := make([]PathOp, n)
+	for i := range out {
+		out[i].Op = int(ops[i])
+		for k := 0; k < 6; k++ {
+			out[i].Args[k] = float32(args[6*i+k])
+		}
 	}
 	return out
 }
